@@ -388,4 +388,266 @@ theorem cascRules_flat (vfs : Vfs) (who : Who) {rs out : Sheet} (h : Flat rs out
         simp [hma, wrapMedia, wrappable_combinable rebased hw]
     simp [cascRules, this, ih2 th]
 
+/-! ### the unconditional form: on every tree without an @namespace rule `resolveImports` IS `flatSpec` —
+value, exception and fetcher calls -/
+
+/-- the result through a function, exception and fetcher calls as they are -/
+def Res.mapOk {α β : Type} (r : Res α) (f : α → β) : Res β :=
+  ⟨match r.val with
+    | .ok a => .ok (f a)
+    | .error e => .error e, r.log⟩
+
+/-! `noNsL`: no @namespace rule in the sheet nor in a sheet loaded for one of its @imports (at any depth) -/
+mutual
+def noNsR : Rule → Bool
+  | .ns .. => false
+  | .imp _ _ _ _ sheet => noNsL sheet
+  | _ => true
+def noNsL : List Rule → Bool
+  | [] => true
+  | r :: rs => noNsR r && noNsL rs
+end
+
+/-- what the groups consist of: @imports and rules that `add` appends -/
+def okKind (r : Rule) : Bool := isImp r || appended r
+
+theorem okKind_tag (r : Rule) :
+    okKind r = (r.tag = 2 || r.tag = 1 || r.tag = 4 || r.tag = 5 || r.tag = 6 || r.tag = 7 || r.tag = 8) := by
+  cases r <;> simp [okKind, isImp, appended, Rule.tag]
+
+theorem keep1_kind (vfs : Vfs) (who : Who) (th : Str) (r x : Rule) (h : (keep1 vfs who th r).val = .ok x) :
+    okKind x = true := by
+  cases r with
+  | imp href media found a b =>
+    cases found with
+    | true => simp [keep1] at h; subst h; rfl
+    | false =>
+      simp only [keep1] at h
+      simp [okKind, setHref_isImp vfs who _ _ _ _ x h]
+  | charset e => simp [keep1, appended] at h
+  | ns a b => simp [keep1, appended] at h
+  | comment a => simp [keep1, appended] at h; subst h; rfl
+  | style a b => simp [keep1, appended] at h; subst h; rfl
+  | media a b => simp [keep1, appended] at h; subst h; rfl
+  | page a b c => simp [keep1, appended] at h; subst h; rfl
+  | fontface a => simp [keep1, appended] at h; subst h; rfl
+  | unknown a => simp [keep1, appended] at h; subst h; rfl
+
+theorem keepAll_kind (vfs : Vfs) (who : Who) (th : Str) : ∀ (X m : List Rule),
+    (keepAll vfs who th X).val = .ok m → ∀ x ∈ m, okKind x = true
+  | [], m, h => by simp [keepAll] at h; subst h; simp
+  | r :: rs, m, h => by
+    simp only [keepAll] at h
+    cases ha : (keep1 vfs who th r).val with
+    | error e => simp [ha] at h
+    | ok x =>
+      simp only [ha] at h
+      cases hb : (keepAll vfs who th rs).val with
+      | error e => simp [hb] at h
+      | ok xs =>
+        simp only [hb] at h
+        simp at h; subst h
+        intro y hy
+        rcases List.mem_cons.mp hy with rfl | hy
+        · exact keep1_kind vfs who th r _ ha
+        · exact keepAll_kind vfs who th rs xs hb y hy
+
+mutual
+theorem cascRules_kind (vfs : Vfs) (who : Who) : ∀ (rs : List Rule) (th : Str) (c : List Rule),
+    (cascRules vfs who th rs).val = .ok c → ∀ x ∈ c, okKind x = true
+  | [], th, c, h => by simp [cascRules] at h; subst h; simp
+  | r :: rs, th, c, h => by
+    simp only [cascRules] at h
+    cases ha : (cascRule vfs who th r).val with
+    | error e => simp [ha] at h
+    | ok c1 =>
+      simp only [ha] at h
+      cases hb : (cascRules vfs who th rs).val with
+      | error e => simp [hb] at h
+      | ok c2 =>
+        simp only [hb] at h
+        simp at h; subst h
+        intro y hy
+        rcases List.mem_append.mp hy with hy | hy
+        · exact cascRule_kind vfs who r th c1 ha y hy
+        · exact cascRules_kind vfs who rs th c2 hb y hy
+theorem cascRule_kind (vfs : Vfs) (who : Who) : ∀ (r : Rule) (th : Str) (c : List Rule),
+    (cascRule vfs who th r).val = .ok c → ∀ x ∈ c, okKind x = true
+  | .charset _, th, c, h => by simp [cascRule] at h; subst h; simp
+  | .imp href media true ihref sheet, th, c, h => by
+    simp only [cascRule] at h
+    cases hi : (cascRules vfs who ihref sheet).val with
+    | error e => simp [hi] at h
+    | ok ci =>
+      simp only [hi] at h
+      cases hre : replRules (replacer href) (hoist ci) with
+      | error e => simp [hre] at h
+      | ok rebased =>
+        simp only [hre] at h
+        by_cases hma : media = mediaAll
+        · simp only [hma, ↓reduceIte] at h
+          cases hk : (keepAll vfs who th rebased.1).val with
+          | error e => simp [hk] at h
+          | ok m =>
+            simp only [hk] at h
+            simp at h; subst h
+            intro y hy
+            rcases List.mem_cons.mp hy with rfl | hy
+            · rfl
+            · exact keepAll_kind vfs who th _ m hk y hy
+        · simp only [hma, ↓reduceIte] at h
+          by_cases hall : rebased.1.all combinable = true
+          · simp only [hall, ↓reduceIte] at h
+            simp at h; subst h
+            intro y hy; simp at hy; rcases hy with rfl | rfl <;> rfl
+          · have hall' : rebased.1.all combinable = false := by
+              cases hb : rebased.1.all combinable with
+              | true => exact absurd hb hall
+              | false => rfl
+            simp only [hall', Bool.false_eq_true, ↓reduceIte] at h
+            simp at h; subst h
+            intro y hy; simp at hy; rcases hy with rfl | rfl <;> rfl
+  | .imp href media false ihref sheet, th, c, h => by
+    simp only [cascRule] at h
+    cases ha : (keep1 vfs who th (.imp href media false ihref sheet)).val with
+    | error e => simp [ha] at h
+    | ok x =>
+      simp only [ha] at h
+      simp at h; subst h
+      intro y hy; simp at hy; subst hy
+      exact keep1_kind vfs who th _ _ ha
+  | .comment a, th, c, h => by
+    simp [cascRule, keep1, appended] at h; subst h; intro y hy; simp at hy; subst hy; rfl
+  | .ns a b, th, c, h => by simp [cascRule, keep1, appended] at h
+  | .style a b, th, c, h => by
+    simp [cascRule, keep1, appended] at h; subst h; intro y hy; simp at hy; subst hy; rfl
+  | .media a b, th, c, h => by
+    simp [cascRule, keep1, appended] at h; subst h; intro y hy; simp at hy; subst hy; rfl
+  | .page a b d, th, c, h => by
+    simp [cascRule, keep1, appended] at h; subst h; intro y hy; simp at hy; subst hy; rfl
+  | .fontface a, th, c, h => by
+    simp [cascRule, keep1, appended] at h; subst h; intro y hy; simp at hy; subst hy; rfl
+  | .unknown a, th, c, h => by
+    simp [cascRule, keep1, appended] at h; subst h; intro y hy; simp at hy; subst hy; rfl
+end
+
+theorem addRule_keep1_full (vfs : Vfs) (who : Who) (th : Str) (t : Sheet) (r : Rule) (hk : okKind r = true) :
+    addRule vfs who th t r = (keep1 vfs who th r).mapOk (ins t) := by
+  cases hv : (keep1 vfs who th r).val with
+  | ok x =>
+    rw [addRule_keep1 vfs who th t r x hv]
+    simp [Res.mapOk, hv]
+  | error e =>
+    cases r with
+    | imp href media found a b =>
+      cases found with
+      | true => simp [keep1] at hv
+      | false =>
+        simp only [keep1] at hv
+        simp [addRule, keep1, Res.mapOk, hv]
+    | charset e => simp [okKind, isImp, appended] at hk
+    | ns a b => simp [okKind, isImp, appended] at hk
+    | comment a => simp [keep1, appended] at hv
+    | style a b => simp [keep1, appended] at hv
+    | media a b => simp [keep1, appended] at hv
+    | page a b c => simp [keep1, appended] at hv
+    | fontface a => simp [keep1, appended] at hv
+    | unknown a => simp [keep1, appended] at hv
+
+theorem addAll_keepAll_full (vfs : Vfs) (who : Who) (th : Str) : ∀ (X : List Rule) (t : Sheet),
+    (∀ r ∈ X, okKind r = true) → addAll vfs who th t X = (keepAll vfs who th X).mapOk (run t)
+  | [], t, _ => by simp [addAll, keepAll, Res.mapOk, run]
+  | r :: rs, t, h => by
+    have hr := h r (List.mem_cons_self ..)
+    simp only [addAll, keepAll, addRule_keep1_full vfs who th t r hr]
+    cases ha : (keep1 vfs who th r).val with
+    | error e => simp [Res.mapOk, ha]
+    | ok x =>
+      have ih := addAll_keepAll_full vfs who th rs (ins t x) (fun d hd => h d (List.mem_cons_of_mem _ hd))
+      simp only [Res.mapOk, ha, ih]
+      cases hb : (keepAll vfs who th rs).val with
+      | error e => simp
+      | ok xs => simp [run]
+
+theorem noNsL_cons (r : Rule) (rs : List Rule) : noNsL (r :: rs) = (noNsR r && noNsL rs) := by
+  simp [noNsL]
+
+mutual
+theorem resolveRules_casc_full (vfs : Vfs) (who : Who) : ∀ (rs : List Rule) (th : Str) (t : Sheet),
+    noNsL rs = true → resolveRules vfs who th t rs = (cascRules vfs who th rs).mapOk (run t)
+  | [], th, t, _ => by simp [resolveRules, cascRules, Res.mapOk, run]
+  | r :: rs, th, t, h => by
+    rw [noNsL_cons, Bool.and_eq_true] at h
+    simp only [resolveRules, cascRules, resolveRule_casc_full vfs who r th t h.1]
+    cases ha : (cascRule vfs who th r).val with
+    | error e => simp [Res.mapOk, ha]
+    | ok c1 =>
+      simp only [Res.mapOk, ha, resolveRules_casc_full vfs who rs th (run t c1) h.2]
+      cases hb : (cascRules vfs who th rs).val with
+      | error e => simp
+      | ok c2 => simp [run_append]
+theorem resolveRule_casc_full (vfs : Vfs) (who : Who) : ∀ (r : Rule) (th : Str) (t : Sheet),
+    noNsR r = true → resolveRule vfs who th t r = (cascRule vfs who th r).mapOk (run t)
+  | .charset _, th, t, _ => by simp [resolveRule, cascRule, Res.mapOk, run]
+  | .imp href media true ihref sheet, th, t, h => by
+    have hs : noNsL sheet = true := by simpa [noNsR] using h
+    have ih := resolveRules_casc_full vfs who sheet ihref [] hs
+    simp only [resolveRule, cascRule, Bool.true_eq_false, ↓reduceIte,
+      addRule_plain vfs who th t (.comment (startComment href)) rfl, ih]
+    cases hi : (cascRules vfs who ihref sheet).val with
+    | error e =>
+      have hne : e ≠ .hierarchyRequestErr := by
+        intro he; subst he
+        have := resolveRules_ne_hier vfs who sheet ihref []
+        rw [ih] at this
+        simp [Res.mapOk, hi] at this
+      cases e <;> simp_all [Res.mapOk]
+    | ok ci =>
+      have hkinds := cascRules_kind vfs who sheet ihref ci hi
+      simp only [Res.mapOk, hi, run_nil_eq_hoist, replaceUrls, ↓reduceIte]
+      cases hre : replRules (replacer href) (hoist ci) with
+      | error e => simp
+      | ok rebased =>
+        have hk : ∀ r ∈ rebased.1, okKind r = true :=
+          all_of_tags okKind (fun n => n = 2 || n = 1 || n = 4 || n = 5 || n = 6 || n = 7 || n = 8) okKind_tag
+            (hoist ci) rebased.1 (replRules_tags _ _ rebased.1 rebased.2 hre)
+            (fun r hr => hkinds r ((hoist_mem ci r).mp hr))
+        simp only [List.nil_append]
+        by_cases hma : media = mediaAll
+        · simp only [hma, ↓reduceIte, addAll_keepAll_full vfs who th rebased.1 _ hk, Res.mapOk]
+          cases hkv : (keepAll vfs who th rebased.1).val with
+          | error e => simp
+          | ok m => simp [run_cons, ins_comment]
+        · simp only [hma, ↓reduceIte]
+          by_cases hall : rebased.1.all combinable = true
+          · simp [hall, proxyAddAll_combinable _ _ hall, addRule, run, ins, isImp]
+          · have hall' : rebased.1.all combinable = false := by
+              cases hb : rebased.1.all combinable with
+              | true => exact absurd hb hall
+              | false => rfl
+            have hk1 : (keep1 vfs who th (.imp href media true ihref sheet)).val
+                = .ok (.imp href media true ihref sheet) := rfl
+            simp [hall', addRule_keep1 vfs who th _ _ _ hk1, run, ins_comment, keep1]
+  | .imp href media false ihref sheet, th, t, _ => by
+    simp only [resolveRule, cascRule, ↓reduceIte]
+    rw [addRule_keep1_full vfs who th t _ rfl]
+    cases ha : (keep1 vfs who th (.imp href media false ihref sheet)).val <;> simp [Res.mapOk, ha, run]
+  | .comment a, th, t, _ => by simp [resolveRule, cascRule, keep1, appended, addRule, Res.mapOk, run, ins, isImp]
+  | .ns a b, th, t, h => by simp [noNsR] at h
+  | .style a b, th, t, _ => by simp [resolveRule, cascRule, keep1, appended, addRule, Res.mapOk, run, ins, isImp]
+  | .media a b, th, t, _ => by simp [resolveRule, cascRule, keep1, appended, addRule, Res.mapOk, run, ins, isImp]
+  | .page a b d, th, t, _ => by simp [resolveRule, cascRule, keep1, appended, addRule, Res.mapOk, run, ins, isImp]
+  | .fontface a, th, t, _ => by simp [resolveRule, cascRule, keep1, appended, addRule, Res.mapOk, run, ins, isImp]
+  | .unknown a, th, t, _ => by simp [resolveRule, cascRule, keep1, appended, addRule, Res.mapOk, run, ins, isImp]
+end
+
+/-- for EVERY import tree without @namespace rules: `resolveImports` is the specification -/
+theorem resolveImports_eq_flatSpec_full (vfs : Vfs) (who : Who) (href : Str) (sheet : Sheet)
+    (h : noNsL sheet = true) : resolveImports vfs who href sheet = flatSpec vfs who href sheet := by
+  rw [resolveImports, resolveRules_casc_full vfs who sheet href [] h]
+  unfold flatSpec Res.mapOk
+  cases hc : (cascRules vfs who href sheet).val with
+  | error e => simp [hc]
+  | ok c => simp [hc, run_nil_eq_hoist]
+
 end CssVerif.Urls
